@@ -145,7 +145,10 @@ func (p PatternSearcher) Chosen() {}
 
 //NewPatternSearcher returns a pattern searcher for searching with the given pattern and blank.
 func NewPatternSearcher(pattern []byte, blank byte) *PatternSearcher {
-	return &PatternSearcher{pattern: pattern, blank: blank, index: 0}
+	//The caller is free to reuse pattern afterwards so we keep a copy, as NewAnagramSearcher does.
+	tmp := make([]byte, len(pattern))
+	copy(tmp, pattern)
+	return &PatternSearcher{pattern: tmp, blank: blank, index: 0}
 }
 
 //AnagramSearcher searches a dawg for words which have the same multiset of letters as the target. Any letters with the value blank are assumed to be wildcards and match any letter.
